@@ -623,7 +623,9 @@ def _adv_getitem(t, index):
             raise Unsupported("advanced indexing mixed with None/Ellipsis")
     # single boolean mask: data dependent shape
     if any(T(i) and i.dtype == "b" for i in index):
-        if len(index) == 1 and index[0].rank <= t.rank:
+        full = lambda i: isinstance(i, slice) and i.start is None and i.stop is None and i.step is None
+        if T(index[0]) and index[0].dtype == "b" and index[0].rank <= t.rank and all(full(i) for i in index[1:]):
+            # x[mask] and x[mask, :, ...]: the rows selected by the mask
             from .methods import MaskedSel
 
             return MaskedSel(t, index[0])
